@@ -6,6 +6,7 @@ import (
 	"path/filepath"
 	"sort"
 	"strings"
+	"syscall"
 	"time"
 )
 
@@ -92,6 +93,23 @@ func materializeOne(root string, e TreeEntry) error {
 		}
 		os.Remove(p)
 		return os.Symlink(e.Target, p)
+	case "chardev":
+		// a character device node like /dev/null (1,3): reads as empty
+		if err := os.MkdirAll(filepath.Dir(p), 0o755); err != nil {
+			return err
+		}
+		os.Remove(p)
+		if err := syscall.Mknod(p, syscall.S_IFCHR|0o666, 1<<8|3); err != nil {
+			return err
+		}
+		if err := os.Chmod(p, 0o666); err != nil {
+			return err
+		}
+		if e.MTime != 0 {
+			t := time.Unix(e.MTime, 0)
+			return os.Chtimes(p, t, t)
+		}
+		return nil
 	case "file":
 		if err := os.MkdirAll(filepath.Dir(p), 0o755); err != nil {
 			return err
